@@ -251,51 +251,57 @@ inductive Trap where
   | outOfBounds
 deriving DecidableEq, Repr
 
-/-- `a % b` of C++ ints -/
-def cmod (a b : Int) : Except Trap Int := if b = 0 then .error .divByZero else .ok (a.tmod b)
-def cdiv (a b : Int) : Except Trap Int := if b = 0 then .error .divByZero else .ok (a.tdiv b)
+/-- `a % b`, `a / b` of C++ ints; the operands here are vector sizes, hence naturals -/
+def cmod (a b : Nat) : Except Trap Nat := if b = 0 then .error .divByZero else .ok (a % b)
+def cdiv (a b : Nat) : Except Trap Nat := if b = 0 then .error .divByZero else .ok (a / b)
 
 /-- `vec[i]` -/
-def at_ (vec : List Leaf) (i : Int) : Except Trap Leaf :=
-  if i < 0 then .error .outOfBounds else
-  match vec[i.toNat]? with
+def at_ (vec : List Leaf) (i : Nat) : Except Trap Leaf :=
+  match vec[i]? with
   | some x => .ok x
   | none => .error .outOfBounds
 
 /-- the inner loop of isCyclic: `for (c = 1; c < cycles; ++c) if (vec[i] != vec[i + c*L]) return false`
     (`n` iterations left, starting at `c`) -/
-def cyclicInner (vec : List Leaf) (L i : Int) (x : Leaf) : Nat → Int → Except Trap Bool
+def cyclicInner (vec : List Leaf) (L i : Nat) (x : Leaf) : Nat → Nat → Except Trap Bool
   | 0, _ => .ok true
-  | n + 1, c => do
-      let y ← at_ vec (i + c * L)
-      if x ≠ y then pure false else cyclicInner vec L i x n (c + 1)
+  | n + 1, c =>
+      match at_ vec (i + c * L) with
+      | .error t => .error t
+      | .ok y => if x ≠ y then .ok false else cyclicInner vec L i x n (c + 1)
 
-/-- the outer loop: `for (i = 0; i < L; ++i) { x = vec[i]; inner }` -/
-def cyclicOuter (vec : List Leaf) (L cycles : Int) : Nat → Int → Except Trap Bool
+/-- the outer loop: `for (i = 0; i < L; ++i) { x = vec[i]; inner }` (`n` iterations left, at `i`) -/
+def cyclicOuter (vec : List Leaf) (L cycles : Nat) : Nat → Nat → Except Trap Bool
   | 0, _ => .ok true
-  | n + 1, i => do
-      let x ← at_ vec i
-      let ok ← cyclicInner vec L i x (cycles - 1).toNat 1
-      if !ok then pure false else cyclicOuter vec L cycles n (i + 1)
+  | n + 1, i =>
+      match at_ vec i with
+      | .error t => .error t
+      | .ok x =>
+          match cyclicInner vec L i x (cycles - 1) 1 with
+          | .error t => .error t
+          | .ok false => .ok false
+          | .ok true => cyclicOuter vec L cycles n (i + 1)
 
 /-- dtype_t::isCyclic(vec, cycleLength) -/
-def isCyclic (vec : List Leaf) (cycleLength : Int) : Except Trap Bool := do
-  let size : Int := vec.length
-  if Gen.cyclicGuard && cycleLength ≤ 0 then
-    return false
-  let r ← cmod size cycleLength
-  if r ≠ 0 then
-    return false
-  let cycles ← cdiv size cycleLength
-  cyclicOuter vec cycleLength cycles cycleLength.toNat 0
+def isCyclic (vec : List Leaf) (cycleLength : Nat) : Except Trap Bool :=
+  if Gen.cyclicGuard && decide (cycleLength ≤ 0) then .ok false
+  else match cmod vec.length cycleLength with
+    | .error t => .error t
+    | .ok r =>
+        if r ≠ 0 then .ok false
+        else match cdiv vec.length cycleLength with
+          | .error t => .error t
+          | .ok cycles => cyclicOuter vec cycleLength cycles cycleLength 0
 
-/-- `for (i = 0; i < entries; ++i) if (!same(fromVec[i], toVec[i])) return false` -/
-def prefixEq (a b : List Leaf) : Nat → Int → Except Trap Bool
+/-- `for (i = 0; i < entries; ++i) if (!same(fromVec[i], toVec[i])) return false`
+    (`n` iterations left, at `i`) -/
+def prefixEq (a b : List Leaf) : Nat → Nat → Except Trap Bool
   | 0, _ => .ok true
-  | n + 1, i => do
-      let x ← at_ a i
-      let y ← at_ b i
-      if x ≠ y then pure false else prefixEq a b n (i + 1)
+  | n + 1, i =>
+      match at_ a i, at_ b i with
+      | .error t, _ => .error t
+      | _, .error t => .error t
+      | .ok x, .ok y => if x ≠ y then .ok false else prefixEq a b n (i + 1)
 
 def isByte : Dtype → Bool
   | .prim n => n == "byte"
@@ -307,19 +313,19 @@ def canCast (from_ to_ : Dtype) : Except Trap Bool :=
   else
     let fromVec := from_.flatten
     let toVec := to_.flatten
-    let fromEntries : Int := fromVec.length
-    let toEntries : Int := toVec.length
+    let fromEntries := fromVec.length
+    let toEntries := toVec.length
     if fromEntries < toEntries then
       match isCyclic toVec fromEntries with
       | .error t => .error t
       | .ok false => .ok false
-      | .ok true => prefixEq fromVec toVec fromEntries.toNat 0
+      | .ok true => prefixEq fromVec toVec fromEntries 0
     else if fromEntries > toEntries then
       match isCyclic fromVec toEntries with
       | .error t => .error t
       | .ok false => .ok false
-      | .ok true => prefixEq fromVec toVec toEntries.toNat 0
-    else prefixEq fromVec toVec fromEntries.toNat 0
+      | .ok true => prefixEq fromVec toVec toEntries 0
+    else prefixEq fromVec toVec fromEntries 0
 
 /-! ### JSON codec -/
 
